@@ -110,3 +110,6 @@ package schema
 //@ immutable Relationship.Type
 //@   writers schema.(*Schema).parseRelation schema.(*Schema).buildPolymorphicRelation schema.(*Schema).buildMany2ManyRelation schema.(*Schema).guessRelation
 //@   tags C12
+//@ immutable Field.AutoIncrementIncrement
+//@   writers schema.(*Schema).ParseField
+//@   tags C03
